@@ -7,6 +7,7 @@ import (
 	"sort"
 	"testing"
 
+	"verifharness/nfrace"
 	"verifharness/sysrun"
 	"verifharness/vh"
 )
@@ -15,7 +16,11 @@ func TestCheck(t *testing.T) {
 	env := vh.GetEnv()
 	run := vh.NewRun(env, "AM.Run.C04Run")
 	var scs []sysrun.Scenario
-	if env.Replay != "" {
+	race := nfrace.Default(env, true)
+	if rp := nfrace.ReplayParams(env.Replay); env.Replay != "" && rp != nil {
+		race = *rp
+	} else if env.Replay != "" {
+		race.Rounds = 0
 		var sc sysrun.Scenario
 		if err := vh.LoadReplayCase(env.Replay, &sc); err != nil {
 			t.Fatal(err)
@@ -56,6 +61,12 @@ func TestCheck(t *testing.T) {
 		for _, v := range sysrun.MonitorC04(res) {
 			run.Violate(v.Key, v.What, sc)
 		}
+	}
+	// concurrent engine: deliveries being logged while the log's GC runs; the real DedupStage is then asked whether
+	// the unchanged group would be notified again (see Proofs/NflogConcProofs.v for the order-independent result)
+	if race.Rounds > 0 {
+		st, fs := nfrace.Run(t, race)
+		nfrace.Report(run, st, fs)
 	}
 	if err := run.Finish("random whole-instance scenarios (config, alert timelines, receiver fault scripts, silences, nflog GC) run under synctest virtual time; one case per aggregation group = its event list with observed outputs; non-trivial = at least 2 flushes and 1 delivered notification"); err != nil {
 		t.Fatal(err)
